@@ -481,17 +481,20 @@ def run(ctx):
     # A memo ("a hook was already started on this cgroup in this interval") that answers 'no hook' lets the second ruleset settling on
     # the same victim kill it while the first one's hook is still running.
     if len(calls) == 1:
-        fo = Flow(P, ohk, events={calls[0]: [("set", "handed")]}, cg=ctx.cg)
+        fo = Flow(P, ohk, events={calls[0]: [("set", "handed")]}, cg=ctx.cg, split=lambda k: "prekill_hook_handler_" in k)
         for r in returns(ohk):
-            if fo.must(r, "handed"):
-                continue
-            g = [(k, p) for k, p in fo.guards(r) if isinstance(k, str)]
-            unset = [(k, p) for k, p in g if "prekill_hook_handler_" in k and p is False]
-            other = [(k, p) for k, p in g if (k, p) not in unset]
-            ctx.check(bool(unset) and not other, "context-forwards-to-handler:every-attempt@%d" % ohk.nodes[r].get("line", 0), "must_precede, helpers followed", ohk.loc(r),
-                      "a return that bypasses the handler is taken only when no handler is installed",
-                      "OomdContext::firePrekillHook can answer '%s' without asking the engine's handler, under %s: a kill attempt on a cgroup "
-                      "with a matching hook then proceeds with no hook run for it" % (ret_text(ohk, r), other or "no condition"))
+            for val, st in (fo.at(r) or {}).items():
+                d = dict(val)
+                if any(k.startswith("C:") and "prekill_hook_handler_" in k and v is False for k, v in d.items()):
+                    continue        # no handler installed: nothing to ask
+                if "handed" in st.must:
+                    continue
+                other = [(k, p_) for k, p_ in fo.guards(r) if isinstance(k, str) and "prekill_hook_handler_" not in k]
+                ctx.check(False, "context-forwards-to-handler:every-attempt@%d" % ohk.nodes[r].get("line", 0), "must_precede, helpers followed", ohk.loc(r),
+                          "a return that bypasses the handler is taken only when no handler is installed",
+                          "OomdContext::firePrekillHook can answer '%s' without asking the engine's handler although one is installed, under %s: a kill attempt "
+                          "on a cgroup with a matching hook then proceeds with no hook run for it" % (ret_text(ohk, r), other or "no condition"))
+        ctx.ok("context-forwards-to-handler:every-attempt", "must_precede, helpers followed", ohk.loc(), "%d returns, each passes the handler unless none is installed" % len(returns(ohk)))
     upd = ctx.fn1("Oomd::Oomd::updateContext")
     hl = [l for l in P.lambdas_in(upd) if l.calls("Engine::firePrekillHook")]
     ctx.check(len(hl) == 1 and bool(upd.calls("setPrekillHooksHandler")), "handler-is-engine-firePrekillHook", "provenance", upd.loc(),
